@@ -17,7 +17,44 @@ def project():
     f["src/types.f90"] = ("module types\n  implicit none\n  type :: t0\n    integer :: a\n  end type t0\n  type, extends(t0) :: t1\n  end type t1\n  type, extends(t1) :: t2\n    type(t0) :: comp\n  end type t2\n"
                           "  type :: alpha\n  contains\n    procedure :: ei\n    generic :: g => ei\n  end type alpha\ncontains\n  subroutine ei(self)\n    class(alpha) :: self\n    call eight()\n  end subroutine ei\n"
                           "  subroutine eight()\n  end subroutine eight\n  subroutine foo()\n    type(alpha) :: y\n    call y%g()\n  end subroutine foo\nend module types\n")
+    # a parent type with a derived-type component, extended twice: composition belongs to the type that declares the component
+    f["src/holders.f90"] = ("module holders\n  use types\n  implicit none\n  type :: holder\n    type(t0) :: kept\n  end type holder\n  type, extends(holder) :: h1\n  end type h1\n"
+                            "  type, extends(h1) :: h2\n    integer :: own\n  end type h2\nend module holders\n")
+    # a USE two procedure levels down is still a dependency of the file
+    f["src/deep.f90"] = ("module deep\n  implicit none\ncontains\n  subroutine outer()\n  contains\n    subroutine inner()\n      use base\n    end subroutine inner\n  end subroutine outer\nend module deep\n"
+                         "program deep_main\ncontains\n  subroutine level1()\n  contains\n    subroutine level2()\n      use deep\n    end subroutine level2\n  end subroutine level1\nend program deep_main\n")
     return f
+
+
+# the relations the project-wide graphs are documented to show, for project(): (from, to, style)
+TYPE_EDGES = {("t1", "t0", "solid"), ("t2", "t1", "solid"), ("t2", "t0", "dashed"), ("h1", "holder", "solid"), ("h2", "h1", "solid"), ("holder", "t0", "dashed")}
+FILE_EDGES = {("holders.f90", "types.f90"), ("deep.f90", "uses.f90"), ("deep.f90", "deep.f90")}
+USE_EDGES = {("left", "base"), ("right", "base"), ("top", "left"), ("top", "right"), ("holders", "types")}
+# (a USE statement inside a contained procedure is an edge of the *file* graph - compilation order - not of the module graph, which shows the USE statements of the
+# module's own scope)
+
+
+def exact_relations(gm):
+    bad = []
+
+    def edges_of(g, styled=False):
+        out = set()
+        for m in re.finditer(r'^\s*"([^"]+)" -> "([^"]+)" \[([^\]]*)\]', g.dot.source, re.M):
+            a, b = m.group(1).split("~", 1)[1], m.group(2).split("~", 1)[1]
+            st = re.search(r"style=(\w+)", m.group(3))
+            out.add((a, b, st.group(1) if st else "")) if styled else out.add((a, b))
+        return out
+    got = edges_of(gm.typegraph, True)
+    if got != TYPE_EDGES:
+        bad.append(f"project type graph: unexpected edges {sorted(got - TYPE_EDGES)}, missing edges {sorted(TYPE_EDGES - got)} (solid = extends, dashed = has a component of)")
+    got = {(a, b) for a, b in edges_of(gm.filegraph) if a != b}
+    want = {(a, b) for a, b in FILE_EDGES if a != b}
+    if got != want:
+        bad.append(f"project file graph: unexpected edges {sorted(got - want)}, missing edges {sorted(want - got)} (a file depends on the files of the modules used anywhere inside it)")
+    got = edges_of(gm.usegraph)
+    if got != USE_EDGES:
+        bad.append(f"project module graph: unexpected edges {sorted(got - USE_EDGES)}, missing edges {sorted(USE_EDGES - got)}")
+    return bad
 
 
 def parse_dot(src):
@@ -114,7 +151,7 @@ def search():
             proj, gm = build(maxdepth, maxnodes)
         except Exception as e:
             return {"confirmed": True, "input": {"graph_maxdepth": maxdepth, "graph_maxnodes": maxnodes}, "actual": f"{type(e).__name__}: {e}", "expected": "graphs", "how": "GraphManager.graph_all"}
-        bad = check(proj, gm, maxdepth, maxnodes) + (expected_specifics(gm) if maxnodes > 100 and maxdepth > 100 else [])
+        bad = check(proj, gm, maxdepth, maxnodes) + (expected_specifics(gm) + exact_relations(gm) if maxnodes > 100 and maxdepth > 100 else [])
         if bad:
             return {"confirmed": True, "input": {"graph_maxdepth": maxdepth, "graph_maxnodes": maxnodes, "files": sorted(project())}, "actual": bad[:4],
                     "expected": "no dangling edge; inverse graphs are inverses; limits respected; graph: false honoured", "how": "DOT sources of the real graph objects"}
